@@ -22,14 +22,13 @@ structure Inv (σ : St) : Prop where
   refm : ∀ q ∈ σ.refs, (q.2, q.1) ∈ σ.merged
   mreg : ∀ p ∈ σ.merged, p ∈ σ.registered
   preg : ∀ p ∈ σ.pending, p ∈ σ.registered
-  fresh : ∀ p ∈ σ.registered, p.1.2 < σ.next
 
 theorem Inv.init : Inv St.init := by
   constructor <;> simp [St.init]
 
 /-- what makes a record legitimate in a state -/
 def Just (σ : St) : Rec → Prop
-  | .flush k _ _ => σ.next ≤ k.2
+  | .flush k _ _ => ∀ p ∈ σ.registered, p.1 ≠ k
   | .merge i inputs => inputs.Nodup ∧ ∀ k ∈ inputs, (k, i) ∈ σ.pending ∧ (i, k) ∉ σ.refs
   | .delRollup ds => ∀ p ∈ ds, p.1 ∈ σ.l0 → p ∈ σ.merged
   | .delRef i ks => ∀ k ∈ ks, (k, i) ∉ σ.pending
@@ -38,12 +37,7 @@ def Just (σ : St) : Rec → Prop
 theorem Inv.apply {σ : St} (h : Inv σ) (r : Rec) (hj : Just σ r) : Inv (σ.apply r) := by
   cases r with
   | flush k ne ivs =>
-    have hk : σ.next ≤ k.2 := hj
-    have hnew : ∀ p ∈ σ.registered, p.1 ≠ k := by
-      intro p hp he
-      have := h.fresh p hp
-      rw [he] at this
-      omega
+    have hnew : ∀ p ∈ σ.registered, p.1 ≠ k := hj
     constructor
     · exact h.nodup
     · intro p hp hl
@@ -74,11 +68,6 @@ theorem Inv.apply {σ : St} (h : Inv σ) (r : Rec) (hj : Just σ r) : Inv (σ.ap
       rcases hp with hp | hp
       · exact Or.inl (h.preg p hp)
       · exact Or.inr hp
-    · intro p hp
-      simp only [St.apply, List.mem_append, List.mem_map] at hp ⊢
-      rcases hp with hp | ⟨i, _, rfl⟩
-      · have := h.fresh p hp; omega
-      · simp; omega
   | merge i inputs =>
     obtain ⟨hnd, hin⟩ := hj
     have hnotm : ∀ k ∈ inputs, (k, i) ∉ σ.merged := by
@@ -118,7 +107,6 @@ theorem Inv.apply {σ : St} (h : Inv σ) (r : Rec) (hj : Just σ r) : Inv (σ.ap
       · exact h.mreg p hp
       · exact h.preg _ (hin k hk).1
     · exact h.preg
-    · exact h.fresh
   | delRollup ds =>
     have hds : ∀ p ∈ ds, p.1 ∈ σ.l0 → p ∈ σ.merged := hj
     constructor
@@ -138,7 +126,6 @@ theorem Inv.apply {σ : St} (h : Inv σ) (r : Rec) (hj : Just σ r) : Inv (σ.ap
     · intro p hp
       simp only [St.apply, List.mem_filter] at hp ⊢
       exact h.preg p hp.1
-    · exact h.fresh
   | delRef i ks =>
     have hks : ∀ k ∈ ks, (k, i) ∉ σ.pending := hj
     constructor
@@ -154,7 +141,6 @@ theorem Inv.apply {σ : St} (h : Inv σ) (r : Rec) (hj : Just σ r) : Inv (σ.ap
       exact h.refm q hq.1
     · exact h.mreg
     · exact h.preg
-    · exact h.fresh
   | compact ks => exact absurd hj id
 
 /-- a list of records each of which is legitimate in the state reached by its predecessors -/
@@ -409,7 +395,9 @@ theorem Inv.step {σ : St} (h : Inv σ) (op : Op) : Inv (σ.step op) := by
     simp only [St.step]
     split
     · rename_i hn
-      exact h.apply _ hn
+      refine h.apply _ ?_
+      intro p hp
+      simpa using (List.all_eq_true.1 hn) p hp
     · exact h
   | rollup fam ivs avail dvs cut =>
     have hj := rollupRecs_just σ h fam ivs (fun i => decide (i ∈ avail)) dvs
@@ -437,7 +425,6 @@ theorem Inv.step {σ : St} (h : Inv σ) (op : Op) : Inv (σ.step op) := by
       · exact h.mreg
       · intro q hq
         exact h.preg q ((hp q).1 hq)
-      · exact h.fresh
     · exact h
 
 theorem Inv.run {σ : St} (h : Inv σ) (ops : List Op) : Inv (σ.run ops) := by
